@@ -27,7 +27,7 @@ func opTarget(op world.Op) int {
 	switch op.Kind {
 	case world.OpClone:
 		return op.B
-	case world.OpCursor, world.OpGet, world.OpIter, world.OpPersist, world.OpKeep:
+	case world.OpCursor, world.OpGet, world.OpIter, world.OpPersist, world.OpKeep, world.OpFlushCache:
 		return -1 // leaves every tree's contents alone
 	}
 	return op.A
@@ -99,7 +99,7 @@ func (m *c02Mon) After(w *world.World, op world.Op, res world.Res, pre interface
 
 func opNameOf(op world.Op) string {
 	return map[world.OpKind]string{world.OpIns: "Insert", world.OpDel: "Delete", world.OpPersist: "MakeRoot", world.OpReload: "MakeRoot+LoadMast", world.OpReloadJSON: "MakeRoot+LoadMast",
-		world.OpKeep: "MakeRoot", world.OpLoad: "LoadMast(cache)", world.OpLoadNoCache: "LoadMast(nocache)", world.OpClone: "Clone", world.OpCursor: "Cursor", world.OpGet: "Get", world.OpIter: "Iter", world.OpDrop: "drop"}[op.Kind]
+		world.OpKeep: "MakeRoot", world.OpLoad: "LoadMast(cache)", world.OpLoadNoCache: "LoadMast(nocache)", world.OpClone: "Clone", world.OpCursor: "Cursor", world.OpGet: "Get", world.OpIter: "Iter", world.OpDrop: "drop", world.OpFlushCache: "cache-flush"}[op.Kind]
 }
 
 func (m *c02Mon) OnState(w *world.World, hist []world.Op) []explore.Finding {
@@ -180,6 +180,9 @@ var c02Captures = map[string][]world.Op{
 	"cursor":          {{Kind: world.OpCursor, A: 0}},
 	"clone-of-clone":  {{Kind: world.OpClone, A: 0, B: 1}, {Kind: world.OpClone, A: 1, B: 2}},
 	"root+load-twice": {{Kind: world.OpKeep, A: 0, B: 0}, {Kind: world.OpLoad, A: 1, B: 0}, {Kind: world.OpLoad, A: 2, B: 0}},
+	// the cache lost its entries after the version was persisted: both loads decode nodes from the
+	// store, the second one is served the objects the first one put into the cache
+	"root+coldload-twice": {{Kind: world.OpKeep, A: 0, B: 0}, {Kind: world.OpFlushCache}, {Kind: world.OpLoad, A: 1, B: 0}, {Kind: world.OpLoad, A: 2, B: 0}},
 }
 
 func c02Ops(cfg *world.Config, slots int, allVals bool) []world.Op {
@@ -257,17 +260,20 @@ func C02(run *report.Run) {
 	if !run.Thorough() {
 		plans = []c02Plan{
 			{world.UintCfg(2, urange(1, 5), 1, B, "big"), []string{"clone", "root+load", "cursor"}, 2, true, 0},
+			{world.UintCfg(2, urange(1, 4), 1, M, "big"), []string{"root+coldload-twice"}, 2, true, 0},
+			{world.UintCfg(2, urange(1, 4), 1, B, "big"), []string{"root+coldload-twice"}, 2, true, 0},
 			{world.UintCfg(2, urange(1, 4), 2, M, "none"), []string{"clone", "root+loadnc"}, 2, true, 0},
 			{world.UintCfg(2, urange(1, 4), 1, B, "tiny1"), []string{"clone", "root+load"}, 2, true, 0},
 			{world.LKeyCfg(2, []uint8{0, 2, 0, 1, 0}, 1, B, "big"), []string{"clone", "root+load"}, 2, true, 0},
 			{deep(B, "big"), []string{"root+load", "clone"}, 2, true, 1},
 		}
 	} else {
-		all := []string{"clone", "root+load", "root+loadnc", "cursor", "clone-of-clone", "root+load-twice"}
+		all := []string{"clone", "root+load", "root+loadnc", "cursor", "clone-of-clone", "root+load-twice", "root+coldload-twice"}
 		plans = []c02Plan{
 			{world.UintCfg(2, urange(1, 5), 1, B, "big"), all, 3, true, 0},
 			{world.UintCfg(2, urange(1, 5), 2, B, "big"), all, 2, true, 0},
-			{world.UintCfg(2, urange(1, 5), 2, M, "none"), all, 2, true, 0},
+			{world.UintCfg(2, urange(1, 5), 2, M, "none"), all[:5], 2, true, 0},
+			{world.UintCfg(2, urange(1, 5), 1, M, "big"), all, 2, true, 0},
 			{world.UintCfg(2, urange(1, 4), 2, B, "tiny1"), all, 3, true, 0},
 			{world.UintCfg(2, urange(1, 4), 2, B, "tiny2"), all, 3, true, 0},
 			{world.UintCfg(3, ulist(1, 2, 3, 4, 6, 9), 1, B, "big"), all, 2, true, 0},
@@ -297,7 +303,7 @@ func C02(run *report.Run) {
 			fam := *pl.cfg
 			fam.Seed = append(append([]world.Op{}, b...), c02Captures[capName]...)
 			slots := 2
-			if capName == "clone-of-clone" || capName == "root+load-twice" {
+			if capName == "clone-of-clone" || capName == "root+load-twice" || capName == "root+coldload-twice" {
 				slots = 3
 			}
 			e := &explore.Explorer{Cfg: &fam, Ops: c02Ops(&fam, slots, pl.allVals), Mon: &c02Mon{}, Reduced: true, MaxDepth: pl.L, Workers: 1}
